@@ -7,6 +7,7 @@ package core
 //
 
 import (
+	"encoding/json"
 	"os"
 	"path/filepath"
 	"sort"
@@ -441,10 +442,18 @@ type vdrFileCache struct {
 func getArgsToFilesMap(fileArgs map[string]map[Nodable]struct{},
 	outs LazyArgumentMap,
 	debug bool, fqname string) map[string]map[string]struct{} {
+	return getArgsToFilesMapFrom(fileArgs, outs.jsonPath, debug, fqname)
+}
+
+// Like getArgsToFilesMap, with the given function to look up the value of an
+// argument.
+func getArgsToFilesMapFrom(fileArgs map[string]map[Nodable]struct{},
+	argValue func(string) json.Marshaler,
+	debug bool, fqname string) map[string]map[string]struct{} {
 	argToFiles := make(map[string]map[string]struct{}, len(fileArgs))
 	// Get the set of files each argument refers to.
 	for arg := range fileArgs {
-		for _, name := range getMaybeFileNames(outs.jsonPath(arg)) {
+		for _, name := range getMaybeFileNames(argValue(arg)) {
 			for _, fullName := range getLogicalFileNames(name) {
 				fileSet := argToFiles[arg]
 				if fileSet == nil {
@@ -580,9 +589,11 @@ func (self *Fork) cacheParamFileMap(outs LazyArgumentMap) {
 	if outs == nil {
 		return
 	}
-	argToFiles := getArgsToFilesMap(
+	argToFiles := getArgsToFilesMapFrom(
 		self.fileArgs,
-		outs,
+		func(arg string) json.Marshaler {
+			return self.outputPath(outs, arg)
+		},
 		self.node.top.rt.Config.Debug,
 		self.node.GetFQName())
 	// Remove "file" args which don't actually refer to existing files.
